@@ -81,8 +81,10 @@ impl StreamChunker {
         io_block_size: usize,
     ) -> Result<Chunk> {
         use std::io::Read;
-        // Can't do 0-byte I/O
-        let io_block_size = io_block_size.max(1);
+        // Can't do 0-byte I/O, and the refill below re-reads the byte we
+        // may have carried over: ask for at least one byte more than that,
+        // otherwise "no progress" does not mean Eof.
+        let io_block_size = io_block_size.max(2);
         while self.buf.slice().len() < 2 {
             let buf = self.buf.take();
 
